@@ -15,12 +15,13 @@ static int btype_of(VType t) {
 struct Cursor {
     const Node *root = nullptr; bool array_root = false;
     std::vector<Frame> st;
-    bool entered = false, done = false;
+    bool entered = false, done = false, wrong_type_end = false;
     Bytes last_query; bool have_last = false;
     uint64_t skipped_or_early = 0;
 
     int depth() const { int d = array_root ? 1 : 0; for (auto &f : st) if (f.c->t == V_OBJ) d++; return d; }
     bool enabled(const Op &o) const {
+        if (o.code == M_RESTART) return entered && !wrong_type_end;     // a restart in the middle of (or after) a traversal
         if (done) return false;
         switch (o.code) {
             case M_ENTER: return !entered || (!st.empty() && st.back().pending);
@@ -160,6 +161,23 @@ struct NavRun {
                 if (!sink.failed()) check_depth();
                 break;
             }
+            case M_RESTART: {
+                // reset / verify / print / to_string(NULL) in the middle of a traversal: each must succeed on a valid document
+                // and put the cursor back to the start; what follows is compared with the reference cursor from the top again
+                if (!cur.st.empty()) bump(res.cnt, fmt("probe.restart_at_nesting_%zu", std::min<size_t>(cur.st.size(), 4)));
+                Outcome o;
+                switch (op.a % 4) {
+                    case 0: o = real(P_RESET); if (!o.ret) fail("restart.reset", "binson_parser_reset returned false on a valid document"); break;
+                    case 1: o = real(P_VERIFY); if (!o.ret) fail("restart.verify", fmt("binson_parser_verify rejected a valid document in the middle of a traversal (%s)", err_name(o.err))); break;
+                    case 2: o = real(P_PRINT); if (!o.ret) fail("restart.print", fmt("binson_parser_print returned false on a valid document in the middle of a traversal (%s)", err_name(o.err))); break;
+                    default: o = real(P_TO_STRING_NULL, 7); if (o.ret || o.size_out == 0) fail("restart.to_string", "to_string(NULL) did not report a size for a valid document in the middle of a traversal"); break;
+                }
+                no_error(o, "restart");
+                cur.st.clear(); cur.entered = false; cur.done = false; cur.have_last = false;
+                if (!sink.failed()) check_depth();
+                cur.skipped_or_early++;
+                break;
+            }
             case M_OBSERVE:
                 check_depth();
                 if (cur.entered && !cur.st.empty()) observe_current();
@@ -214,7 +232,7 @@ struct NavRun {
                 if (o.ret != want) fail("lookup.result", fmt("lookup of x%s returned %d, reference says %d (scan from field %zu of %zu)", to_hex(name).c_str(), o.ret, want, f.next, k.size()));
                 if (found && !type_ok) {
                     if (o.err != BINSON_ERROR_WRONG_TYPE) fail("ensure.wrong_type", fmt("field_ensure with a mismatching type left error %s", err_name(o.err)));
-                    cur.done = true; bump(res.cnt, "nav.ensure_wrong_type");
+                    cur.done = true; cur.wrong_type_end = true; bump(res.cnt, "nav.ensure_wrong_type");
                     break;
                 }
                 no_error(o, "lookup");
@@ -350,11 +368,12 @@ struct GenCursor {       // lightweight replica of the model transitions, withou
                 Bytes name = resolve_name(op, cur); cur.last_query = name; cur.have_last = true;
                 size_t j = f.next; bool found = false;
                 while (j < f.c->kids.size()) { if (f.c->kids[j].name == name) { found = true; break; } if (f.c->kids[j].name > name) break; j++; }
-                if (found && op.code == M_FIELD_ENS && (op.c & 2)) { cur.done = true; break; }
+                if (found && op.code == M_FIELD_ENS && (op.c & 2)) { cur.done = true; cur.wrong_type_end = true; break; }
                 if (found) { f.pos = (int)j; f.next = j + 1; f.pending = f.c->kids[j].is_container(); } else { f.pos = -1; f.pending = false; f.next = j; }
                 break;
             }
             case M_RAW: case M_TO_WRITER: { Frame &f = cur.st.back(); if (f.pending) { f.pending = false; f.pos = -1; } break; }
+            case M_RESTART: cur.st.clear(); cur.entered = false; cur.done = false; cur.have_last = false; break;
             default: break;
         }
     }
@@ -421,14 +440,15 @@ Plan nav_generate(uint64_t base, const std::string &prop, uint64_t index, int ti
     int nops = 1 + (int)ro.below(tier ? 120 : 80);
     GenCursor g; g.root = &root; g.cur.root = &root; g.cur.array_root = p.root != 0;
     std::vector<Node> dummy;
-    for (int i = 0; i < nops && !g.cur.done; i++) {
+    int w_restart = ro.chance(1, 3) ? 2 + (int)ro.below(8) : 0;        // a third of the histories restart the parser now and then
+    for (int i = 0; i < nops && !g.cur.wrong_type_end; i++) {
         struct Cand { int code; int w; } cands[] = {{M_ENTER, w_enter}, {M_NEXT, w_next}, {M_LEAVE, w_leave}, {M_OBSERVE, w_obs}, {M_STREQ, w_streq},
-                                                    {M_FIELD, w_field}, {M_FIELD_ENS, w_ens}, {M_RAW, w_raw}, {M_TO_WRITER, w_tw}};
+                                                    {M_FIELD, w_field}, {M_FIELD_ENS, w_ens}, {M_RAW, w_raw}, {M_TO_WRITER, w_tw}, {M_RESTART, w_restart}};
         int total = 0;
         Op probe;
-        int wts[9];
+        int wts[10];
         bool at_end = g.cur.entered && !g.cur.st.empty() && !g.cur.st.back().pending && g.cur.st.back().next >= g.cur.st.back().c->kids.size();
-        for (int c = 0; c < 9; c++) {
+        for (int c = 0; c < 10; c++) {
             probe.code = cands[c].code; wts[c] = g.cur.enabled(probe) ? cands[c].w : 0;
             if (at_end) {   // most of a history should be spent where something can still happen
                 if (probe.code == M_FIELD || probe.code == M_FIELD_ENS) wts[c] = (wts[c] + 9) / 10;
@@ -447,6 +467,7 @@ Plan nav_generate(uint64_t base, const std::string &prop, uint64_t index, int ti
             op.c = (int64_t)(ro.below(64) * 8) | (ro.chance(1, 2) ? 1 : 0) | (op.code == M_FIELD_ENS && ro.chance(1, 5) ? 2 : 0) | (ro.chance(1, 3) ? 4 : 0);
         } else if (op.code == M_STREQ) op.a = (int64_t)ro.below(4);
         else if (op.code == M_TO_WRITER) op.a = (int64_t)ro.below(8);
+        else if (op.code == M_RESTART) op.a = (int64_t)ro.below(4);
         p.ops.push_back(op);
         g.apply(op);
     }
